@@ -45,6 +45,6 @@ if grep -q patch_applies=yes $res; then
   done
   git -C /repo checkout -- . ; git -C /repo status --short | head -3
   # restore evidence of the unchanged tree
-  for p in $(jq -r '.checks[].property_id' /verif/MANIFEST.json); do /verif/run.sh $p quick >/dev/null 2>&1; done
+  [ -z "$NORESTORE" ] && for p in $(jq -r '.checks[].property_id' /verif/MANIFEST.json); do /verif/run.sh $p quick >/dev/null 2>&1; done
   echo "--- checks that fired:"; cat $dir/checks.txt
 fi
